@@ -753,7 +753,7 @@ func (c *FnCtx) inlineCall(env *Env, fn *types.Func, recv *Val, args []Val, x *a
 		if fi.Decl.Recv != nil && len(fi.Decl.Recv.List) > 0 && len(fi.Decl.Recv.List[0].Names) > 0 {
 			obj := fi.Pkg.TypesInfo.Defs[fi.Decl.Recv.List[0].Names[0]]
 			if obj != nil {
-				st.vars[obj] = Val{T: recv.T, Typ: obj.Type()}
+				c.declareVar(st, obj, Val{T: recv.T, Typ: obj.Type()})
 			}
 		}
 	}
